@@ -21,3 +21,5 @@ def run(res, programs, tier):
     intalg.r01_1(res, programs, "R01.1")
     intalg.r01_2(res, programs, "R01.2", "mul")
     intalg.r_sign_tables(res, programs, "R01.3", intalg.OPS)
+    from . import c19
+    c19.shared_r19_2(res, programs)
